@@ -94,7 +94,35 @@ def impl(case):
         "maximize": bool(top.maximize),
         "unwrap_is_base": get_function_problem(top) is base,
         "worse": [bool(top.worse_than(a, b)) for a, b in ((1.0, 2.0), (2.0, 1.0), (1.0, 1.0), (-math.inf, 0.0))],
+        # NaN against a number is deterministic in FunctionProblem (NaN is worse); the stack must answer like the innermost problem
+        "worse_nan": [bool(top.worse_than(a, b)) for a, b in ((math.nan, 1.0), (1.0, math.nan))],
+        "worse_nan_base": [bool(base.worse_than(a, b)) for a, b in ((math.nan, 1.0), (1.0, math.nan))],
     }
+    # the same stack over an innermost Problem with its OWN comparison (tolerance-based): every wrapper must defer to it
+    from pyhms.core.problem import (EvalCountingProblem, EvalCutoffProblem, PrecisionCutoffProblem, Problem, ProblemWrapper, StatsGatheringProblem)
+
+    class TolProblem(Problem):
+        def evaluate(self, genome, *a, **k):
+            return 0.0
+
+        def worse_than(self, a, b):
+            return (a < b - 0.5) if case["maximize"] else (a > b + 0.5)
+
+        @property
+        def bounds(self):
+            return bounds
+
+        @property
+        def maximize(self):
+            return case["maximize"]
+    inner = TolProblem()
+    q = inner
+    for w in reversed(case["stack"]):
+        q = {"wrapper": lambda z: ProblemWrapper(z), "counting": lambda z: EvalCountingProblem(z), "cutoff": lambda z: EvalCutoffProblem(z, w[1]),
+             "precision": lambda z: PrecisionCutoffProblem(z, w[1], w[2])}.get(w[0], lambda z: StatsGatheringProblem(z))(q)
+    pairs = ((1.0, 1.2), (1.2, 1.0), (1.0, 2.0), (2.0, 1.0), (0.0, 0.5))
+    deleg["custom"] = [bool(q.worse_than(a, b)) for a, b in pairs]
+    deleg["custom_inner"] = [bool(inner.worse_than(a, b)) for a, b in pairs]
     return {"rets": rets, "snaps": snaps, "log": list(log), "deleg": deleg}
 
 
@@ -158,6 +186,10 @@ def monitor(case, out):
     want = [(a < b) if mx else (a > b) for a, b in ((1.0, 2.0), (2.0, 1.0), (1.0, 1.0), (-math.inf, 0.0))]
     if dl["worse"] != want:
         return f"worse_than through the stack gives {dl['worse']}, the base problem's ordering gives {want}"
+    if dl.get("worse_nan") != dl.get("worse_nan_base"):
+        return f"worse_than(NaN, x) / (x, NaN) through the stack gives {dl.get('worse_nan')}, the innermost problem gives {dl.get('worse_nan_base')}"
+    if dl.get("custom") != dl.get("custom_inner"):
+        return f"over an innermost problem with its own comparison the stack answers {dl.get('custom')}, the innermost problem {dl.get('custom_inner')}"
     return None
 
 
